@@ -7,7 +7,8 @@ TH = 'thread/thread.h'
 QA = [(r'lock_state\.load\([^)]*\)', 'q_load(this)', 0),
       (r'lock_state\.compare_exchange_(?:strong|weak)\(\s*(\w+),\s*([^,]+),\s*std::memory_order_\w+,\s*std::memory_order_\w+\)', r'q_cas(this, &\1, \2)', 0),
       (r'lock_state\.fetch_sub\(1, [^)]*\)', 'q_fetch_sub(this, 1)', 0), (r'lock_state\.store\(0, [^)]*\)', 'q_store(this, 0)', 0),
-      (r'(?<![\w>.])try_wake\(\)', 'Q_try_wake(this)', 0)]
+      (r'(?<![\w>.])try_wake\(\)', 'Q_try_wake(this)', 0),
+      (r'cv_unique\.notify_one\(\)', 'q_notify_one_unique(this)', 0), (r'cv_shared\.notify_all\(\)', 'q_notify_all_shared(this)', 0)]
 SL = dict(rettype='void', scoped_lock=('spin_lock() /* {0} */', 'spin_unlock() /* {0} */'))
 TARGETS = [
     Target('rw_lock', TC, r'int rwlock::lock\(int mode, Timeout timeout\)', rules=[
@@ -30,8 +31,9 @@ TARGETS = [
     Target('q_trylock_shared', TH, r'bool __trylock_shared\(\) (?=\{)', rules=QA,
            marks={'count': 1, 0: dict(name='QTS', frame=['state', 'this', 'Q_LAST_SEEN'], effects={'q_cas': ['state', 'this', 'Q_LAST_SEEN']}, pure=[])}),
     Target('q_unlock_unique', TH, r'void __unlock_unique\(\) (?=\{)', rules=QA, defers=SL),
-    Target('q_unlock_shared', TH, r'void __unlock_shared\(\) (?=\{)', rules=QA + [
-        (r'\{\s*SCOPED_LOCK\(spin\);\s*Q_try_wake\(this\);\s*\}', '{ spin_lock(); Q_try_wake(this); spin_unlock(); }', 1)]),
+    Target('q_try_wake', TH, r'void try_wake\(\) (?=\{)', rules=QA),
+    Target('q_unlock_shared', TH, r'void __unlock_shared\(\) (?=\{)', rules=QA,
+           scoped=dict(items=[(r'SCOPED_LOCK\(spin\);', 'spin_lock();', 'spin_unlock();')], rettype='void')),
     Target('q_unlock', TH, r'int unlock\(\) (?=\{\s*auto cur_state)', rules=QA + [
         (r'__unlock_unique\(\)', 'Q_unlock_unique(this)', 1), (r'__unlock_shared\(\)', 'Q_unlock_shared(this)', 1)]),
     Target('q_do_lock', TH, r'int do_lock\(TryFunc&& try_fn, photon::condition_variable& cv,\s*Timeout timeout\)', rules=[
